@@ -104,6 +104,24 @@ pub open spec fn perr_1(p: Seq<u8>) -> Option<crate::common::DecodeError> {
     else if p.len() > 4 && !is_utf8(p.skip(2).skip(2)) { Some(crate::common::DecodeError::InvalidUtf8(1)) }
     else { None }
 }
+pub proof fn lemma_pdec_penc_1(v: AvpV)
+    requires pok_1(v),
+    ensures pdec_1(penc_1(v)) is Some, avp_eq(pdec_1(penc_1(v))->Some_0, v), //[C03,C10,C11:spec.avp1.roundtrip]
+{
+    broadcast use group_spec_seq;
+    if v.n == 2 {
+        assert(penc_1(v).skip(2) =~= enc16(v.i1) + v.b0);
+        assert(penc_1(v).skip(2).skip(2) =~= v.b0);
+    } else if v.n == 1 {
+        assert(penc_1(v).skip(2) =~= enc16(v.i1));
+    }
+}
+pub proof fn lemma_pdec_ok_1(p: Seq<u8>)
+    requires pdec_1(p) is Some,
+    ensures pok_1(pdec_1(p)->Some_0), penc_1(pdec_1(p)->Some_0).len() <= p.len(), //[C10:spec.avp1.decoded_is_encodable]
+{
+    broadcast use group_spec_seq;
+}
 // hidden AVP: attribute number kept, value octets kept verbatim (possibly empty)
 pub open spec fn pok_hidden(v: AvpV) -> bool {
     v.hidden && 0 <= v.kind < 65536 && v.n == 0
@@ -589,29 +607,30 @@ pub proof fn lemma_decrypt_encrypt(p: Seq<u8>, t: Seq<u8>, secret: Seq<u8>, rv: 
     assert(decrypt(c, t, secret, rv) =~= p);
 }
 
-// hide then reveal at specification level, for every encodable non-hidden value
-pub proof fn lemma_reveal_hide(v: AvpV, secret: Seq<u8>, rv: Seq<u8>, lp: Seq<u8>, ap: Seq<u8>)
+// hide then reveal at specification level: revealing a hidden value yields the decoding of the original payload
+pub proof fn lemma_reveal_hide_core(kind: int, payload: Seq<u8>, secret: Seq<u8>, rv: Seq<u8>, lp: Seq<u8>, ap: Seq<u8>)
     requires
-        spec_payload_ok(v), !v.hidden, 0 <= v.kind < 65536, ap.len() == 16,
-        2 + spec_payload_enc(v).len() + lp.len() <= 1008,        // the domain stated by C11
-        spec_payload_dec(v.kind, spec_payload_enc(v)) == Some(v),   // per-kind round trip (lemma_pdec_penc_K)
+        0 <= kind < 65536, ap.len() == 16,
+        2 + payload.len() + lp.len() <= 1008,        // the domain stated by C11
     ensures
-        spec_reveal(v.kind, spec_hide_value(v.kind, spec_payload_enc(v), secret, rv, lp, ap), secret, rv) == RecV::Ok(v), //[C11:spec.reveal_hide]
+        spec_reveal(kind, spec_hide_value(kind, payload, secret, rv, lp, ap), secret, rv) == spec_decode_avp(kind, payload), //[C11:spec.reveal_hide]
+        spec_hide_value(kind, payload, secret, rv, lp, ap).len() % 16 == 0, //[C12:spec.hide.aligned]
+        spec_hide_value(kind, payload, secret, rv, lp, ap).len() >= 2 + payload.len() + lp.len(), //[C12:spec.hide.covers]
+        spec_hide_value(kind, payload, secret, rv, lp, ap).len() < 2 + payload.len() + lp.len() + 16, //[C12:spec.hide.minimal_padding]
 {
     broadcast use group_spec_seq;
-    let payload = spec_payload_enc(v);
     let p = spec_hide_plain(payload, lp, ap);
     let body = enc16(6 + payload.len() as int) + payload + lp;
     let pad = (16 - body.len() % 16) % 16;
     assert(p == body + ap.take(pad));
+    assert(body.len() == 2 + payload.len() + lp.len());
     assert(p.len() % 16 == 0 && p.len() >= 16);
-    lemma_decrypt_encrypt(p, enc16(v.kind), secret, rv);
-    let c = spec_hide_value(v.kind, payload, secret, rv, lp, ap);
+    lemma_decrypt_encrypt(p, enc16(kind), secret, rv);
+    let c = spec_hide_value(kind, payload, secret, rv, lp, ap);
     assert(c.len() == p.len());
     assert(p =~= enc16(6 + payload.len() as int) + (payload + lp + ap.take(pad)));
     assert(be16(p) == 6 + payload.len());
     assert(p.skip(2).take(payload.len() as int) =~= payload);
-    assert(spec_kind_assigned(v.kind));
 }
 
 // ---- C04: data messages survive encode then decode --------------------------------------------------------------
@@ -619,7 +638,7 @@ pub open spec fn data_encodable(d: DataV, total: int) -> bool {
     &&& d.data.len() > 0
     &&& 0 <= d.tunnel < 65536 && 0 <= d.session < 65536
     &&& (d.ns_nr is Some ==> 0 <= d.ns_nr->Some_0.0 < 65536 && 0 <= d.ns_nr->Some_0.1 < 65536)
-    &&& (d.offset is Some ==> 0 <= d.offset->Some_0 <= d.data.len() - 1)
+    &&& (d.offset is Some ==> 0 <= d.offset->Some_0 <= d.data.len() - 1 && d.offset->Some_0 < 65536)
     &&& (d.length is Some ==> d.length->Some_0 == total && total < 65536)
 }
 pub proof fn lemma_data_roundtrip(d: DataV)
@@ -662,6 +681,160 @@ pub proof fn lemma_data_roundtrip(d: DataV)
     let n: int = match d.offset { Some(o) => o, None => 0 };
     assert(b4.skip(n).take(d.data.len() - n) =~= d.data.skip(n));
     assert(b4.skip(n).skip(d.data.len() - n) =~= Seq::<u8>::empty());
+    // the flag word and every field read back
+    assert(be16(e) == w);
+    assert(e.len() == 2 + b0.len());
+    let need: int = 4 + (if d.length is Some { 2int } else { 0 }) + (if d.ns_nr is Some { 4int } else { 0 }) + (if d.offset is Some { 2int } else { 0 });
+    assert(b0.len() == need + d.data.len());
+    if d.length is Some { assert(be16(b0) == d.length->Some_0); }
+    assert(be16(b1) == d.tunnel);
+    assert(be16(b1.skip(2)) == d.session);
+    if d.ns_nr is Some {
+        assert(be16(b2) == d.ns_nr->Some_0.0);
+        assert(be16(b2.skip(2)) == d.ns_nr->Some_0.1);
+    }
+    if d.offset is Some { assert(be16(b3) == d.offset->Some_0); }
+    let r = spec_data(w, b0);
+    assert(r is Some);
+    assert(r->Some_0.1 =~= Seq::<u8>::empty());
+    assert(data_eq(r->Some_0.0, DataV { prio: d.prio, length: d.length, tunnel: d.tunnel, session: d.session, ns_nr: d.ns_nr, offset: None, data: d.data.skip(n) }));
+    assert(spec_message(e, true, true, true) == Some((MsgV::Data(r->Some_0.0), r->Some_0.1)));
+}
+
+
+// ---- C03: AVP records, lists and control messages survive encode then decode ----------------------------------
+pub open spec fn avp_encodable(v: AvpV) -> bool { spec_payload_ok(v) && avp_fits(v) && 0 <= v.kind < 65536 }
+pub open spec fn oks(l: Seq<AvpV>) -> Seq<RecV> { Seq::new(l.len(), |i: int| RecV::Ok(l[i])) }
+
+pub proof fn lemma_avp_record(v: AvpV, rest: Seq<u8>)
+    requires avp_encodable(v),
+    ensures spec_avp_list(spec_enc_avp(v) + rest) == seq![RecV::Ok(v)] + spec_avp_list(rest), //[C03,C08:spec.avp_record.roundtrip]
+{
+    broadcast use group_spec_seq;
+    let payload = spec_payload_enc(v);
+    let body = enc16(v.kind) + payload;
+    let len: int = 4 + body.len() as int;
+    assert(len == 6 + payload.len());
+    let h: int = if v.hidden { 2 } else { 0 };
+    let o0 = (((len / 256) % 4) * 64 + 1 + h) as u8;
+    let o1 = (len % 256) as u8;
+    let e = spec_enc_avp(v);
+    assert(e == seq![o0, o1] + (enc16(0) + body));
+    let s = e + rest;
+    assert(e.len() == len);
+    assert(s[0] == o0 && s[1] == o1);
+    assert(o0 as int == ((len / 256) % 4) * 64 + 1 + h);
+    assert(hdr_len(s) == len);
+    assert(hdr_hidden(s) == v.hidden);
+    assert(s.skip(2) =~= enc16(0) + (body + rest));
+    assert(s.skip(2).skip(2) =~= enc16(v.kind) + (payload + rest));
+    assert(s.skip(6) =~= payload + rest) by { assert(s.skip(6) =~= s.skip(2).skip(2).skip(2)); }
+    assert(s.skip(6).take(len - 6) =~= payload);
+    assert(s.skip(6).skip(len - 6) =~= rest);
+    if v.hidden {
+        assert(hidden_view(v.kind, payload) == v) by { assert(avp_eq(hidden_view(v.kind, payload), v)); }
+    } else {
+        lemma_payload_roundtrip(v);
+    }
+}
+pub proof fn lemma_enc_avps_cons(l: Seq<AvpV>)
+    requires l.len() > 0,
+    ensures spec_enc_avps(l) == spec_enc_avp(l[0]) + spec_enc_avps(l.skip(1)),
+    decreases l.len(),
+{
+    if l.len() == 1 {
+        assert(l.drop_last() =~= Seq::<AvpV>::empty());
+        assert(l.skip(1) =~= Seq::<AvpV>::empty());
+        assert(spec_enc_avps(l) =~= spec_enc_avp(l[0]) + spec_enc_avps(l.skip(1)));
+    } else {
+        lemma_enc_avps_cons(l.drop_last());
+        assert(l.drop_last().skip(1) =~= l.skip(1).drop_last());
+        assert(l.skip(1).last() == l.last());
+        assert(l.drop_last()[0] == l[0]);
+        assert(spec_enc_avps(l) =~= spec_enc_avp(l[0]) + spec_enc_avps(l.skip(1)));
+    }
+}
+pub proof fn lemma_avp_list_roundtrip(l: Seq<AvpV>)
+    requires forall |i: int| 0 <= i < l.len() ==> avp_encodable(#[trigger] l[i]),
+    ensures spec_avp_list(spec_enc_avps(l)) == oks(l), //[C03:spec.avp_list.roundtrip]
+    decreases l.len(),
+{
+    if l.len() == 0 {
+        assert(spec_avp_list(spec_enc_avps(l)) =~= oks(l));
+    } else {
+        lemma_enc_avps_cons(l);
+        let t = l.skip(1);
+        assert forall |i: int| 0 <= i < t.len() implies avp_encodable(#[trigger] t[i]) by { assert(t[i] == l[i + 1]); }
+        lemma_avp_list_roundtrip(t);
+        lemma_avp_record(l[0], spec_enc_avps(t));
+        assert(seq![RecV::Ok(l[0])] + oks(t) =~= oks(l));
+    }
+}
+// concatenation of well-delimited records (C08): decoding r ++ rest = decoding of the record, then of the rest
+pub proof fn lemma_avp_list_concat(l: Seq<AvpV>, rest: Seq<u8>)
+    requires forall |i: int| 0 <= i < l.len() ==> avp_encodable(#[trigger] l[i]),
+    ensures spec_avp_list(spec_enc_avps(l) + rest) == oks(l) + spec_avp_list(rest), //[C08:spec.avp_list.concat]
+    decreases l.len(),
+{
+    if l.len() == 0 {
+        assert(spec_enc_avps(l) + rest =~= rest);
+        assert(oks(l) + spec_avp_list(rest) =~= spec_avp_list(rest));
+    } else {
+        lemma_enc_avps_cons(l);
+        let t = l.skip(1);
+        assert forall |i: int| 0 <= i < t.len() implies avp_encodable(#[trigger] t[i]) by { assert(t[i] == l[i + 1]); }
+        lemma_avp_list_concat(t, rest);
+        lemma_avp_record(l[0], spec_enc_avps(t) + rest);
+        assert(spec_enc_avps(l) + rest =~= spec_enc_avp(l[0]) + (spec_enc_avps(t) + rest));
+        assert(seq![RecV::Ok(l[0])] + (oks(t) + spec_avp_list(rest)) =~= oks(l) + spec_avp_list(rest));
+    }
+}
+pub open spec fn control_encodable(m: CtlV) -> bool {
+    &&& control_fits(m)
+    &&& (forall |i: int| 0 <= i < m.avps.len() ==> avp_encodable(#[trigger] m.avps[i]))
+    &&& (m.avps.len() > 0 ==> m.avps[0].kind == 0 && !m.avps[0].hidden)
+    &&& 0 <= m.tunnel < 65536 && 0 <= m.session < 65536 && 0 <= m.ns < 65536 && 0 <= m.nr < 65536
+}
+pub proof fn lemma_control_roundtrip(m: CtlV)
+    requires control_encodable(m),
+    ensures ({
+        let e = spec_enc_control(m, 2);
+        let r = spec_message(e, true, true, true);
+        r is Some && r->Some_0.1.len() == 0 && r->Some_0.0 is Control
+        && ctl_eq(r->Some_0.0->Control_0, CtlV { length: e.len() as int, tunnel: m.tunnel, session: m.session, ns: m.ns, nr: m.nr, avps: m.avps })
+    }), //[C03:spec.control.roundtrip]
+{
+    broadcast use group_spec_seq;
+    let w = spec_flag_word(true, true, true, false, false, 2);
+    lemma_flag_word(true, true, true, false, false, 2);
+    let body = spec_enc_avps(m.avps);
+    let e = spec_enc_control(m, 2);
+    let t4 = enc16(m.nr) + body;
+    let t3 = enc16(m.ns) + t4;
+    let t2 = enc16(m.session) + t3;
+    let t1 = enc16(m.tunnel) + t2;
+    let t0 = enc16(12 + body.len() as int) + t1;
+    assert(e == enc16(w) + t0);
+    assert(e.len() == 12 + body.len());
+    let b = e.skip(2);
+    assert(b =~= t0);
+    assert(b.skip(2) =~= t1);
+    assert(b.skip(2).skip(2) =~= t2);
+    assert(b.skip(2).skip(2).skip(2) =~= t3);
+    assert(b.skip(2).skip(2).skip(2).skip(2) =~= t4);
+    assert(b.skip(2).skip(2).skip(2).skip(2).skip(2) =~= body);
+    assert(be16(e) == w);
+    assert(be16(b) == 12 + body.len());
+    assert(body.take(body.len() as int) =~= body);
+    assert(body.skip(body.len() as int) =~= Seq::<u8>::empty());
+    lemma_avp_list_roundtrip(m.avps);
+    let l = oks(m.avps);
+    assert(recs_all_ok(l));
+    assert(recs_values(l) =~= m.avps);
+    if m.avps.len() > 0 { assert(rec_is_message_type(l[0])); }
+    assert(spec_tail_ok(l));
+    let r = spec_control(w, true, b);
+    assert(r is Some);
 }
 
 } // verus!
